@@ -1,6 +1,498 @@
-//! Monitor for C29 (see /verif/DESIGN.md §5 C29).
-use vcommon::Args;
+//! C29 — an adjusted oracle price stays inside the allowed band.
+//!
+//! Part 1 (direct): the real private `try_adjust_price_with_max_deviation_factor` through the additive
+//! hook `verif_try_adjust_price_with_max_deviation_factor` on arbitrary `Price`s (inverted, mixed decimal
+//! multipliers), explicit / mid reference, factors 0 .. ≫100 %. BigInt oracle, derived from the
+//! statement (not from the code): `R` = reference unit price (explicit, or ⌊(min+max)/2⌋),
+//! `D = ⌊R·factor/10^20⌋` (integer bounds: `x ≤ R + R·f` ⇔ `x ≤ R + ⌊R·f⌋`, so flooring is the
+//! *least* strict reading), band `[R−D, R+D]`. A produced price must either have both bounds in the
+//! band with `min ≤ max`, or be inverted — and an inverted one must be refused by the acceptance step
+//! (`SmallPrices::from_price`, hook `verif_from_price`). An out-of-band input that comes back
+//! unclamped (`None`) is accepted only for an arithmetic reason (deviation / band edge not
+//! representable); these classes are counted.
+//!
+//! Part 2 (instructions): tokens with `toggle_token_price_adjustment` + `set_feed_config_v2`
+//! (max deviation factor), real feed updates whose bid / ask stray from the price, then
+//! `set_prices_from_price_feed`; the Oracle account's stored prices must be in band and ordered
+//! whenever adjustment is enabled and a factor is configured; never inverted in any case.
+use crate::world::{exchange::load, six, World, STORE_PID};
+use gmsol_store::states::{
+    oracle::{price_map::SmallPrices, verif_try_adjust_price_with_max_deviation_factor},
+    Oracle, PriceFeed,
+};
+use gmsol_store::{accounts as sa, instruction as si};
+use gmsol_utils::price::{Decimal, Price};
+use vcommon::{
+    big::{b, div_ceil, div_floor, pow10},
+    json,
+    monitor::{guard, run_shards},
+    num_bigint::BigInt,
+    Args, Monitor, Rng,
+};
 
-pub fn run(_args: &Args) -> Option<i32> {
-    None
+const UNIT: u128 = crate::world::UNIT;
+
+fn unit(d: &Decimal) -> BigInt {
+    b(d.value) * pow10(d.decimal_multiplier as u32)
+}
+
+fn gen_factor(rng: &mut Rng) -> u128 {
+    match rng.below(14) {
+        0 => 0,
+        1 => 1,
+        2 => 10u128.pow(12),
+        3 => UNIT / 10_000,
+        4 => UNIT / 100,
+        5 => UNIT / 10,
+        6 => UNIT,
+        7 => UNIT + UNIT / 2,
+        8 => UNIT - 1,
+        9 => UNIT + 1,
+        10 => rng.range_u128(1, 4_294) * 10u128.pow(18),
+        11 => rng.biased_u128(u128::MAX, UNIT),
+        _ => rng.log_u128(2 * UNIT),
+    }
+}
+
+fn gen_value(rng: &mut Rng) -> u32 {
+    match rng.below(8) {
+        0 => *rng.pick(&[0u32, 1, 2, 3, u32::MAX, u32::MAX - 1, u32::MAX / 2]),
+        1 => u32::MAX - rng.log_u64(100_000) as u32,
+        _ => rng.log_u64(u32::MAX as u64) as u32,
+    }
+}
+
+/// Value (in steps of `10^mult`) closest to `target` unit price, with noise.
+fn near(rng: &mut Rng, target: &BigInt, mult: u8) -> u32 {
+    let step = pow10(mult as u32);
+    let base = if rng.bool() { div_floor(target, &step) } else { div_ceil(target, &step) };
+    let noise = match rng.below(5) {
+        0 => 1,
+        1 => -1,
+        2 => rng.log_u64(1_000) as i64,
+        3 => -(rng.log_u64(1_000) as i64),
+        _ => 0,
+    };
+    let v = base + noise;
+    if v < b(0) {
+        0
+    } else if v > b(u32::MAX) {
+        u32::MAX
+    } else {
+        u32::try_from(v).unwrap_or(u32::MAX)
+    }
+}
+
+struct Band {
+    r: BigInt,
+    d: BigInt,
+    lo: BigInt,
+    hi: BigInt,
+}
+
+fn band(price: &Price, ref_price: Option<&Decimal>, factor: u128) -> Band {
+    let r = match ref_price {
+        Some(d) => unit(d),
+        None => div_floor(&(unit(&price.min) + unit(&price.max)), &b(2)),
+    };
+    let d = div_floor(&(&r * b(factor)), &b(UNIT));
+    Band { lo: &r - &d, hi: &r + &d, r, d }
+}
+
+fn direct_case(rng: &mut Rng, m: &mut Monitor, shard: u64, case: u64) {
+    let factor = gen_factor(rng);
+    let same_mult = rng.chance(3, 5);
+    let m0 = rng.range(0, 20) as u8;
+    let (mm, mx, mr) = if same_mult {
+        (m0, m0, m0)
+    } else {
+        (rng.range(0, 20) as u8, rng.range(0, 20) as u8, rng.range(0, 20) as u8)
+    };
+    let rd = Decimal { value: gen_value(rng), decimal_multiplier: mr };
+    let r_unit = unit(&rd);
+    let d0 = div_floor(&(&r_unit * b(factor)), &b(UNIT));
+    // place the bounds relative to the band of the explicit reference
+    let place = |rng: &mut Rng, mult: u8| -> u32 {
+        let k = rng.below(12);
+        let t: BigInt = match k {
+            0 => &r_unit - &d0,
+            1 => &r_unit + &d0,
+            2 => &r_unit - &d0 - 1,
+            3 => &r_unit + &d0 + 1,
+            4 => r_unit.clone(),
+            5 => &r_unit - &d0 * 2,
+            6 => &r_unit + &d0 * 2,
+            7 => &r_unit - div_floor(&d0, &b(2)),
+            8 => &r_unit + div_floor(&d0, &b(2)),
+            9 => &r_unit + &d0 * 1000,
+            _ => return gen_value(rng),
+        };
+        near(rng, &t, mult)
+    };
+    let mut price = Price {
+        min: Decimal { value: place(rng, mm), decimal_multiplier: mm },
+        max: Decimal { value: place(rng, mx), decimal_multiplier: mx },
+    };
+    if rng.chance(2, 3) && unit(&price.min) > unit(&price.max) {
+        // mostly ordered inputs, some inverted
+        std::mem::swap(&mut price.min.value, &mut price.max.value);
+    }
+    let ref_price = if rng.chance(3, 4) { Some(rd) } else { None };
+    let res = guard(|| verif_try_adjust_price_with_max_deviation_factor(&factor, &price, ref_price.as_ref()));
+    m.eval();
+    let wit = |out: &str| {
+        json!({
+            "shard": shard, "case": case, "factor": factor.to_string(),
+            "price": {"min": [price.min.value, price.min.decimal_multiplier], "max": [price.max.value, price.max.decimal_multiplier]},
+            "ref": ref_price.map(|d| vec![d.value as u64, d.decimal_multiplier as u64]),
+            "result": out,
+        })
+    };
+    let res = match res {
+        Ok(r) => r,
+        Err(p) => {
+            m.count("direct_panics");
+            if m.wants_sample() {
+                m.sample(wit(&format!("panic: {p}")));
+            }
+            return;
+        }
+    };
+    let bd = band(&price, ref_price.as_ref(), factor);
+    let in_band = |x: &BigInt| *x >= bd.lo && *x <= bd.hi;
+    let (umin, umax) = (unit(&price.min), unit(&price.max));
+    let max_oob = !in_band(&umax);
+    let min_oob = !in_band(&umin);
+    let input_class = format!(
+        "{}{}{}{}",
+        if max_oob { "maxOut" } else { "maxIn" },
+        if min_oob { "_minOut" } else { "_minIn" },
+        if umin > umax { "_inverted" } else { "" },
+        if same_mult { "" } else { "_mixedMult" }
+    );
+    match res {
+        Some(p) => {
+            let (pmin, pmax) = (unit(&p.min), unit(&p.max));
+            let inverted = pmin > pmax;
+            let ok_band = in_band(&pmin) && in_band(&pmax);
+            let out = format!("Some(min=({},{}), max=({},{}))", p.min.value, p.min.decimal_multiplier, p.max.value, p.max.decimal_multiplier);
+            m.count("direct_adjusted");
+            if !inverted && !ok_band {
+                m.violation("C29:adjust:produced_price_out_of_band", wit(&out));
+            } else if inverted {
+                m.count("direct_adjusted_inverted");
+                // must be refused by the acceptance step
+                match guard(|| SmallPrices::verif_from_price(&p, false, true)) {
+                    Ok(Ok(_)) => m.violation("C29:adjust:inverted_price_accepted_downstream", wit(&out)),
+                    Ok(Err(_)) => m.count("direct_inverted_refused_downstream"),
+                    Err(_) => m.count("direct_panics"),
+                }
+            } else {
+                m.count("direct_adjusted_in_band");
+                let on_edge = pmax == div_floor(&bd.hi, &pow10(p.max.decimal_multiplier as u32)) * pow10(p.max.decimal_multiplier as u32)
+                    || pmin == div_ceil(&bd.lo, &pow10(p.min.decimal_multiplier as u32)) * pow10(p.min.decimal_multiplier as u32);
+                if on_edge {
+                    m.count("direct_adjusted_on_grid_edge");
+                }
+                let accepted = matches!(guard(|| SmallPrices::verif_from_price(&p, false, true)), Ok(Ok(_)));
+                if accepted {
+                    m.count("direct_adjusted_in_band_accepted_downstream");
+                }
+                m.nontrivial(format!("adj|{input_class}|{}|{accepted}|{on_edge}|{mm},{mx},{mr}|{}", ref_price.is_some(), 128 - factor.leading_zeros()).as_bytes());
+            }
+        }
+        None => {
+            if !max_oob && !min_oob {
+                m.count("direct_none_input_in_band");
+                return;
+            }
+            // Out-of-band input left unclamped: only for an arithmetic reason.
+            let u128max = b(u128::MAX);
+            let mut reasons: Vec<&str> = vec![];
+            if bd.d > u128max {
+                reasons.push("deviation_exceeds_u128");
+            }
+            if max_oob {
+                if bd.hi > u128max {
+                    reasons.push("upper_edge_exceeds_u128");
+                } else if div_floor(&bd.hi, &pow10(price.max.decimal_multiplier as u32)) > b(u32::MAX) {
+                    reasons.push("upper_edge_exceeds_u32_grid");
+                }
+            }
+            if min_oob {
+                if bd.d > bd.r {
+                    reasons.push("lower_edge_negative");
+                } else if div_ceil(&bd.lo, &pow10(price.min.decimal_multiplier as u32)) > b(u32::MAX) {
+                    reasons.push("lower_edge_exceeds_u32_grid");
+                }
+            }
+            if reasons.is_empty() {
+                m.violation("C29:adjust:out_of_band_input_left_unclamped", wit("None"));
+            } else {
+                for r in &reasons {
+                    m.count(&format!("direct_declined_{r}"));
+                }
+                m.nontrivial(format!("declined|{input_class}|{}|{mm},{mx},{mr}", reasons.join("+")).as_bytes());
+            }
+        }
+    }
+    if m.wants_sample() && case % 100_003 == 17 {
+        m.sample(wit(&format!("{:?}", res.map(|p| (p.min.value, p.min.decimal_multiplier, p.max.value, p.max.decimal_multiplier)))));
+    }
+}
+
+// ------------------------------------------------------------------------------------------------
+// Instruction level
+
+fn provider_u8() -> u8 {
+    gmsol_utils::oracle::PriceProviderKind::ChainlinkDataStreams as u8
+}
+
+impl World {
+    fn c29_toggle_adjustment(&mut self, token: usize, enable: bool) -> crate::world::TxResult {
+        let (keeper, store, token_map) = (self.keeper, self.store, self.token_map);
+        let mint = self.tokens[token].mint;
+        self.send(
+            &[six(sa::ToggleTokenConfig { authority: keeper, store, token_map }, si::ToggleTokenPriceAdjustment { token: mint, enable })],
+            &[keeper],
+        )
+    }
+
+    fn c29_set_max_deviation(&mut self, token: usize, factor: u128) -> crate::world::TxResult {
+        let (keeper, store, token_map) = (self.keeper, self.store, self.token_map);
+        let mint = self.tokens[token].mint;
+        self.send(
+            &[six(
+                sa::SetFeedConfig { authority: keeper, store, token_map },
+                si::SetFeedConfigV2 { token: mint, provider: provider_u8(), feed: None, timestamp_adjustment: None, max_deviation_factor: Some(factor) },
+            )],
+            &[keeper],
+        )
+    }
+
+    fn c29_set_prices(&mut self, token: usize) -> crate::world::TxResult {
+        let (keeper, store, token_map, oracle) = (self.keeper, self.store, self.token_map, self.oracle);
+        let mint = self.tokens[token].mint;
+        let mut ix = six(
+            sa::SetPricesFromPriceFeed { authority: keeper, store, oracle, token_map, chainlink_program: None },
+            si::SetPricesFromPriceFeed { tokens: vec![mint] },
+        );
+        ix.accounts.extend(self.feed_metas(&[mint]));
+        self.send(&[ix], &[keeper])
+    }
+
+    fn c29_clear(&mut self) -> crate::world::TxResult {
+        let (keeper, store, oracle) = (self.keeper, self.store, self.oracle);
+        self.send(&[six(sa::ClearAllPrices { authority: keeper, store, oracle }, si::ClearAllPrices {})], &[keeper])
+    }
+}
+
+struct TokCfg {
+    idx: usize,
+    decimals: u8,
+    precision: u8,
+    adjust: bool,
+    factor: Option<u128>,
+}
+
+fn instruction_shard(args: &Args, shard: u64, m: &mut Monitor) {
+    let mut rng = Rng::derive(args.seed, shard, 2929);
+    let iters = args.scale(900, 4_000);
+    let mut w = World::bootstrap_store();
+    w.bootstrap_oracle();
+    let mut toks = vec![];
+    for (name, dec, prec, synth) in [("BTC", 8u8, 2u8, true), ("SOL", 9, 4, false), ("USDC", 6, 6, false), ("MEME", 5, 9, true), ("COARSE", 9, 0, true)] {
+        let idx = w.add_token(name, dec, prec, synth);
+        toks.push(TokCfg { idx, decimals: dec, precision: prec, adjust: false, factor: None });
+    }
+    let factors: [u128; 12] = [
+        0,
+        10u128.pow(12),
+        10u128.pow(15),
+        UNIT / 10_000,
+        UNIT / 1_000 + 7 * 10u128.pow(12),
+        UNIT / 100,
+        UNIT / 100 + 3 * 10u128.pow(12),
+        UNIT / 10,
+        UNIT / 2,
+        UNIT,
+        UNIT + UNIT / 2,
+        4_000 * 10u128.pow(18),
+    ];
+    for it in 0..iters {
+        w.svm.warp(rng.range(0, 3) as i64);
+        let ti = rng.below(toks.len() as u64) as usize;
+        if rng.chance(1, 3) {
+            let en = rng.chance(4, 5);
+            if w.c29_toggle_adjustment(toks[ti].idx, en).is_ok() {
+                toks[ti].adjust = en;
+                m.count("ix_toggle_adjustment");
+            }
+        }
+        if rng.chance(1, 3) {
+            let f = *rng.pick(&factors);
+            match w.c29_set_max_deviation(toks[ti].idx, f) {
+                Ok(_) => {
+                    toks[ti].factor = if f == 0 { None } else { Some(f) };
+                    m.count("ix_set_max_deviation_ok");
+                }
+                Err(_) => m.count("ix_set_max_deviation_rejected"),
+            }
+        }
+        let t = &toks[ti];
+        // price value in steps of the token's precision: mostly mid-range, sometimes near the u32 limits
+        let steps: u128 = match rng.below(8) {
+            0 => u32::MAX as u128 - rng.log_u64(1_000) as u128,
+            1 => rng.range(1, 20) as u128,
+            2 => u32::MAX as u128 / 2 + rng.range(0, 10) as u128,
+            _ => rng.log_u64(u32::MAX as u64).max(1) as u128,
+        };
+        // 18-decimal USD price of one whole token: steps / 10^precision (+ sub-step noise)
+        let e18 = |s: u128| -> u128 {
+            if t.precision <= 18 {
+                s * 10u128.pow(18 - t.precision as u32)
+            } else {
+                s / 10u128.pow(t.precision as u32 - 18)
+            }
+        };
+        let sub = if t.precision < 18 { rng.below_u128(10u128.pow(18 - t.precision as u32)) } else { 0 };
+        let price = e18(steps) + if rng.bool() { sub } else { 0 };
+        let f = t.factor.unwrap_or(UNIT / 100);
+        let dev = vcommon::big::to_u128(&(b(price) * b(f) / b(UNIT))).unwrap_or(u128::MAX / 4).min(u128::MAX / 4);
+        let stray = |rng: &mut Rng| -> u128 {
+            match rng.below(9) {
+                0 => 0,
+                1 => dev,
+                2 => dev + 1 + rng.log_u128(e18(2)),
+                3 => dev.saturating_sub(1 + rng.log_u128(e18(2))),
+                4 => dev * 2,
+                5 => dev / 2,
+                6 => rng.log_u128(price.max(1)),
+                7 => dev + e18(1),
+                _ => rng.log_u128(dev.max(1) * 3),
+            }
+        };
+        let bid = price.saturating_sub(stray(&mut rng));
+        let ask = price.saturating_add(stray(&mut rng));
+        if w.set_price(t.idx, bid, price, ask).is_err() {
+            m.count("ix_feed_update_rejected");
+            continue;
+        }
+        m.count("ix_feed_update_ok");
+        let res = w.c29_set_prices(t.idx);
+        m.eval();
+        let mint = w.tokens[t.idx].mint;
+        match res {
+            Err((e, _)) => {
+                m.count(&format!("ix_set_prices_rejected_{}", e.custom_code().map(|c| c.to_string()).unwrap_or_else(|| "other".into())));
+            }
+            Ok(_) => {
+                m.count("ix_set_prices_ok");
+                let Some(oracle) = load::<Oracle>(&w.svm, &w.oracle) else {
+                    m.inconclusive("harness: oracle account unreadable");
+                    return;
+                };
+                let Ok(stored) = oracle.get_primary_price(&mint, true) else {
+                    m.inconclusive("harness: accepted price not readable from the oracle account");
+                    return;
+                };
+                // reference from the feed account (what the program used)
+                let Some(feed) = load::<PriceFeed>(&w.svm, &w.tokens[t.idx].feed) else {
+                    m.inconclusive("harness: feed unreadable");
+                    return;
+                };
+                let feed_decimals = w.svm.get(&w.tokens[t.idx].feed).map(|a| a.data[8 + 160]).unwrap_or(18);
+                let fp = feed.price();
+                let conv = |x: u128| Decimal::try_from_price(x, feed_decimals, t.decimals, t.precision).ok();
+                let (Some(rd), Some(fmin), Some(fmax)) = (conv(*fp.price()), conv(*fp.min_price()), conv(*fp.max_price())) else {
+                    m.inconclusive("harness: cannot convert the feed price like the program does");
+                    return;
+                };
+                let wit = json!({
+                    "shard": shard, "iter": it, "token": w.tokens[t.idx].name, "token_decimals": t.decimals, "precision": t.precision,
+                    "adjustment_enabled": t.adjust, "max_deviation_factor": t.factor.map(|f| f.to_string()),
+                    "report": {"bid": bid.to_string(), "price": price.to_string(), "ask": ask.to_string()},
+                    "stored_unit_prices": {"min": stored.min.to_string(), "max": stored.max.to_string()},
+                    "ref_unit_price": unit(&rd).to_string(),
+                });
+                if stored.min > stored.max {
+                    m.violation("C29:set_prices:inverted_price_stored", wit.clone());
+                }
+                if let (true, Some(f)) = (t.adjust, t.factor) {
+                    let r = unit(&rd);
+                    let d = div_floor(&(&r * b(f)), &b(UNIT));
+                    let (lo, hi) = (&r - &d, &r + &d);
+                    let (smin, smax) = (b(stored.min), b(stored.max));
+                    let feed_out = unit(&fmin) < lo || unit(&fmax) > hi;
+                    if smin < lo || smax > hi || smin > hi || smax < lo {
+                        m.violation("C29:set_prices:out_of_band_price_stored", wit.clone());
+                    }
+                    if feed_out {
+                        m.count("ix_accepted_after_clamp");
+                        let side = (unit(&fmin) < lo) as u8 + 2 * (unit(&fmax) > hi) as u8;
+                        let edge = (smin == div_ceil(&lo, &pow10(rd.decimal_multiplier as u32)) * pow10(rd.decimal_multiplier as u32)) as u8
+                            + 2 * (smax == div_floor(&hi, &pow10(rd.decimal_multiplier as u32)) * pow10(rd.decimal_multiplier as u32)) as u8;
+                        m.nontrivial(format!("ix|{}|{f}|{side}|{edge}", t.idx).as_bytes());
+                    } else {
+                        m.count("ix_accepted_feed_already_in_band");
+                    }
+                } else if t.factor.is_some() {
+                    m.count("ix_accepted_adjustment_disabled_factor_set");
+                } else {
+                    m.count("ix_accepted_no_factor");
+                }
+                if m.wants_sample() && it % 97 == 3 {
+                    m.sample(wit);
+                }
+            }
+        }
+        if w.c29_clear().is_err() {
+            m.inconclusive("harness: clear_all_prices failed");
+            return;
+        }
+    }
+}
+
+pub fn run(args: &Args) -> Option<i32> {
+    let mut mon = Monitor::new(
+        args,
+        "part 1: generated (factor, Price{min,max} with independent decimal multipliers 0..=20 and u32 values placed at / \
+         just inside / just outside / far outside the band edges or random, inverted inputs, explicit reference or mid) fed to \
+         the real try_adjust_price_with_max_deviation_factor (hook); BigInt band oracle; inverted results must be refused by \
+         SmallPrices::from_price (hook). part 2: five tokens (decimals/precision 8/2, 9/4, 6/6, 5/9, 9/0) with price \
+         adjustment toggled and max deviation factors 1e-8..4000 % set through the real instructions, real chainlink feed \
+         updates with bid/ask straying 0..≫ the deviation, then set_prices_from_price_feed and a read of the Oracle \
+         account. non-trivial = (1) an adjustment that produced an in-band ordered price or was declined for an arithmetic \
+         reason, (2) an accepted instruction-level price whose feed bounds were out of band (i.e. clamped); distinct = hash \
+         of (input class, reference kind, downstream acceptance, edge class / decline reasons, the three decimal multipliers, bit length of the factor) resp. (token, factor, side, edge)",
+    );
+    mon.assume("decimal multipliers are limited to 0..=20 (Decimal::MAX_DECIMAL_MULTIPLIER); larger ones cannot be produced by Decimal::try_from_price");
+    mon.assume("part 2 feeds are written only through the real update instruction (so bid ≤ price ≤ ask); reference = the feed's price converted with Decimal::try_from_price like the program does");
+    let direct_shards = args.scale(32, 128);
+    let direct_cases = args.scale(150_000, 2_000_000);
+    let ix_shards = args.scale(32, 128);
+    let quiet = hostsvm::QuietStdout::new();
+    run_shards(&mut mon, args.threads, direct_shards + ix_shards, |shard, m| {
+        if shard < direct_shards {
+            let mut rng = Rng::derive(args.seed, shard, 29);
+            for case in 0..direct_cases {
+                direct_case(&mut rng, m, shard, case);
+            }
+        } else {
+            instruction_shard(args, shard - direct_shards, m);
+        }
+    });
+    drop(quiet);
+    let _ = STORE_PID;
+    mon.require("direct_adjusted_in_band", 100_000);
+    mon.require("direct_adjusted_on_grid_edge", 10_000);
+    mon.require("direct_adjusted_inverted", 1_000);
+    mon.require("direct_inverted_refused_downstream", 1_000);
+    mon.require("direct_none_input_in_band", 10_000);
+    mon.require("direct_declined_lower_edge_negative", 100);
+    mon.require("direct_declined_upper_edge_exceeds_u32_grid", 100);
+    mon.require("ix_set_prices_ok", 2_000);
+    mon.require("ix_accepted_after_clamp", 500);
+    mon.require("ix_accepted_feed_already_in_band", 200);
+    Some(mon.finish())
 }
